@@ -74,6 +74,7 @@ type Net struct {
 	reqs    []*ReqInfo
 	keep    bool           // keep request frames
 	OnReq   func(*ReqInfo) // observer, called with mu NOT held
+	OnResp  func(ri *ReqInfo, body []byte) // observer of every response body (correlation id onwards)
 	blocked bool           // refuse all new dials (unreachable brokers)
 	conns   map[*conn]struct{}
 }
@@ -297,6 +298,9 @@ func (c *conn) Read(p []byte) (int, error) {
 			ri.Handled = true
 			c.n.mu.Unlock()
 			rule = ri.rule
+			if f := c.n.OnResp; f != nil {
+				f(ri, body)
+			}
 		}
 		switch rule.Act {
 		case DropResponse:
